@@ -1,6 +1,7 @@
 package main
 
 import (
+	"strings"
 	"go/ast"
 	"go/types"
 
@@ -25,6 +26,41 @@ func init() {
 			for _, n := range []string{"Errorf", "Error", "ErrorCondition", "ErrorConditionf", "ErrorAssociate"} {
 				if m := c.LookupMethod("lisp.LEnv." + n); m != nil {
 					creators[m] = true
+				}
+			}
+			// ... and every method of LEnv that calls one of them on ITS OWN receiver creates the error
+			// through whatever environment it is called on (packageGet -> ErrorAssociate)
+			for changed := true; changed; {
+				changed = false
+				for _, u := range c.Funcs(func(p string) bool { return rel(p) == "lisp" }) {
+					if u.Decl == nil || u.Decl.Body == nil || u.Decl.Recv == nil || len(u.Decl.Recv.List) != 1 || len(u.Decl.Recv.List[0].Names) != 1 || creators[u.Obj] {
+						continue
+					}
+					if !strings.HasSuffix(u.Obj.Type().(*types.Signature).Recv().Type().String(), "lisp.LEnv") {
+						continue
+					}
+					ui := u.Pkg.TypesInfo
+					r := ui.Defs[u.Decl.Recv.List[0].Names[0]]
+					reassigned := false
+					ast.Inspect(u.Decl.Body, func(n ast.Node) bool {
+						if as, ok := n.(*ast.AssignStmt); ok {
+							for _, l := range as.Lhs {
+								if identObj(ui, l) == r {
+									reassigned = true
+								}
+							}
+						}
+						return true
+					})
+					if reassigned {
+						continue // a walker itself: judged below, not a creator for others
+					}
+					for _, ce := range callsIn(u.Decl.Body, false) {
+						if se, ok := ast.Unparen(ce.Fun).(*ast.SelectorExpr); ok && identObj(ui, se.X) == r && creators[originOf(Callee(ui, ce))] {
+							creators[u.Obj] = true
+							changed = true
+						}
+					}
 				}
 			}
 			parentF := c.LookupField("lisp.LEnv.parent")
